@@ -27,7 +27,7 @@ import sys
 from pathlib import Path
 
 VERIF = Path(__file__).resolve().parent.parent
-OUT = VERIF / "lean" / "QGen" / "Imports.lean"
+OUT = Path(os.environ.get("VERIF_LEAN_DIR", VERIF / "lean")) / "QGen" / "Imports.lean"
 
 
 def source_root() -> Path:
